@@ -30,6 +30,7 @@ type runLog struct {
 	ends    []int
 	stopped *bool
 	dur     time.Duration
+	inside  func() // called in the middle of every run, if set
 }
 
 func (r *runLog) f(ctx context.Context) {
@@ -48,6 +49,9 @@ func (r *runLog) f(ctx context.Context) {
 		hx.Sleep(r.dur)
 	} else {
 		hx.Yield()
+	}
+	if r.inside != nil {
+		r.inside()
 	}
 	hx.Atomically(func() {
 		if *r.stopped {
@@ -85,8 +89,33 @@ func stopRaceX(kinds []string, parentCancel, parentDeadline bool, mode int) Scen
 			k := k
 			l := &runLog{name: fmt.Sprintf("%s#%d", k, i), seq: &seq, stopped: &stopped}
 			logs = append(logs, l)
+			var inner *runLog
+			if k == "DoNested" {
+				inner = &runLog{name: l.name + "/inner", seq: &seq, stopped: &stopped}
+				logs = append(logs, inner)
+			}
 			go func() {
 				switch k {
+				case "DoNested":
+					// a running f registers more work (the group may be stopping meanwhile)
+					g.Do(func(ctx context.Context) {
+						l.f(ctx)
+						g.Do(inner.f)
+						g.Trigger(inner.f)
+					})
+				case "TriggerSelf":
+					// f calls its own trigger function twice (on its first run)
+					var tr func()
+					first := true
+					tr = g.Trigger(func(ctx context.Context) {
+						l.f(ctx)
+						if first {
+							first = false
+							tr()
+							tr()
+						}
+					})
+					tr()
 				case "Do":
 					g.Do(l.f)
 				case "Trigger":
@@ -135,7 +164,16 @@ func stopRaceX(kinds []string, parentCancel, parentDeadline bool, mode int) Scen
 // triggers: calls[i] = number of trigger calls thread i makes; f runs for dur (0 = one scheduling
 // point). kind: "Trigger" or "PeriodicOrTrigger" (with an interval far beyond the scenario).
 func triggers(kind string, calls []int, dur time.Duration, mode int) Scenario {
-	return Scenario{Name: fmt.Sprintf("trigger/%s/calls=%v/dur=%v/timerMode=%d", kind, calls, dur, mode), TimerMode: mode, Body: func() {
+	return triggersX(kind, calls, dur, mode, 0)
+}
+
+// selfCalls: the first run of f calls the trigger function that many times itself.
+func triggersX(kind string, calls []int, dur time.Duration, mode int, selfCalls int) Scenario {
+	name := fmt.Sprintf("trigger/%s/calls=%v/dur=%v/timerMode=%d", kind, calls, dur, mode)
+	if selfCalls > 0 {
+		name += fmt.Sprintf("/first-run-triggers-%d-times-itself", selfCalls)
+	}
+	return Scenario{Name: name, TimerMode: mode, Body: func() {
 		g := xsync.NewGroup(context.Background())
 		seq := 0
 		stopped := false
@@ -147,6 +185,19 @@ func triggers(kind string, calls []int, dur time.Duration, mode int) Scenario {
 			tr = g.PeriodicOrTrigger(1000*ms, 0, l.f)
 		}
 		var callSeqs []int
+		if selfCalls > 0 {
+			firstRun := true
+			l.inside = func() {
+				if !firstRun {
+					return
+				}
+				firstRun = false
+				for i := 0; i < selfCalls; i++ {
+					hx.Atomically(func() { seq++; callSeqs = append(callSeqs, seq) })
+					tr()
+				}
+			}
+		}
 		done := make(chan struct{}, len(calls))
 		for _, n := range calls {
 			n := n
@@ -245,16 +296,23 @@ func All() []Scenario {
 		stopRace([]string{"Do", "Trigger"}, true, 0),
 		stopRace([]string{"Periodic"}, true, 1),
 		stopRace([]string{"PeriodicOrTrigger"}, false, 1),
+		stopRace([]string{"DoNested"}, false, 0),
+		stopRace([]string{"TriggerSelf"}, false, 0),
 		stopRaceX([]string{"Do"}, false, true, 0),
 		stopRaceX([]string{"Trigger", "Periodic"}, false, true, 1),
 		triggers("Trigger", []int{1}, 0, 0),
 		triggers("Trigger", []int{2}, 0, 0),
 		triggers("Trigger", []int{1, 1}, 0, 0),
+		triggersX("Trigger", []int{1}, 0, 0, 2),
+		triggersX("PeriodicOrTrigger", []int{1}, 0, 0, 2),
 		triggers("Trigger", []int{2, 1}, 0, 0),
 		triggers("Trigger", []int{2}, 2*ms, 0),
 		triggers("PeriodicOrTrigger", []int{1, 1}, 0, 0),
 		triggers("PeriodicOrTrigger", []int{2}, 0, 1),
 		periodic("Periodic", 4*ms, 1*ms, 0, 0),
+		// interval 0: f is simply invoked again and again (one run at a time)
+		periodic("Periodic", 0, 0, 2*ms, 0),
+		periodic("PeriodicOrTrigger", 0, 0, 2*ms, 1),
 		periodic("Periodic", 4*ms, 0, 6*ms, 0),
 		periodic("PeriodicOrTrigger", 4*ms, 1*ms, 0, 0),
 		periodic("PeriodicOrTrigger", 4*ms, 0, 6*ms, 0),
